@@ -7,7 +7,7 @@ RULE = ('bitmaps of sizes {0, 1, 7, 11..29, every valid size of every symbology 
         'all dark, noise, valid symbols of every symbology cropped / padded / pasted on a canvas of another version\'s size / shifted to a non-zero origin / with another version\'s '
         'format information stamped in / fed to the wrong symbology\'s decoder; each fed to all three DecodeBitmap functions under recover(), with a memory limit. '
         'Oracle: the outcome is ok or err, never a panic, crash or timeout; allocation is bounded by a small multiple of the bitmap size (measured by the harness). Also run on the '
-        'Lean model. non-trivial = bitmap whose size differs from what its format information announces, or with non-zero origin, or a wrong-symbology feed')
+        'Lean model. non-trivial = any bitmap that is not uniformly blank or uniformly dark (noise, valid symbols that were cropped / padded / shifted / cross-fed / restamped, arbitrary-codeword symbols, boundary-value symbols)')
 TRUSTED = [
     'Lean 4.33.0 kernel; axioms per theorem as listed',
     'Go runtime panics are observed through recover() in the harness; allocation through runtime.MemStats',
@@ -171,7 +171,9 @@ def oracle(ctx, lines, out):
 
 
 def nontrivial(line, out):
-    return True
+    # measured: not a blank / all-dark bitmap (those are kept as degenerate cases but do not count)
+    px = line.rsplit(':', 1)[-1]
+    return bool(px.strip('0-')) and bool(px.lower().strip('f-'))
 
 
 def search(ctx, broken, diffs):
